@@ -44,12 +44,16 @@ VALUE_POOL = 64
 
 def build():
     """Build the harness (cfg hook on) and the OCaml replay driver."""
+    from vplib import common as _c
+    global HARNESS_BIN
+    if _c.REPO != "/repo":
+        HARNESS_BIN = os.path.join(_c.target_dir("default"), "release", "intern_harness")
     env = dict(os.environ)
     env.update({"CARGO_NET_OFFLINE": "true",
-                "CARGO_TARGET_DIR": os.path.join(ROOT, ".build/target-default"),
+                "CARGO_TARGET_DIR": _c.target_dir("default"),
                 "RUSTFLAGS": "--cfg salsa_rs_salsa_verif"})
     subprocess.run(["cargo", "build", "--offline", "--release", "-j6"],
-                   cwd=os.path.join(ROOT, "harness-intern"), env=env, check=True,
+                   cwd=_c.crate_dir("harness-intern"), env=env, check=True,
                    timeout=1800)
     subprocess.run([os.path.join(ROOT, "ocaml/intern/build.sh"), ROOT], check=True,
                    timeout=900)
